@@ -278,8 +278,8 @@ fn tamper(raw: &DnsResponse, query: &Query, m: &str) -> Option<Result<DnsRespons
             msg.authorities.push(Record::from_rdata(soa.name.clone(), soa.ttl, RData::DNSSEC(DNSSECRData::NSEC(forged))));
             msg.metadata.response_code = ResponseCode::NXDomain;
         }
-        // an (unsigned) NSEC3 record owned by the apex beside the genuine NSECs: a response with
-        // both kinds of proof is Bogus whatever they say
+        // an (unsigned) NSEC3 record owned by the apex beside the genuine NSECs: it must not make a
+        // false statement acceptable (it is not authenticated, so it takes no part in the proof)
         "add-nsec3" => {
             let soa = msg.authorities.iter().find(|rr| rr.record_type() == RecordType::SOA)?.clone();
             if !msg.authorities.iter().any(|rr| rr.record_type() == RecordType::NSEC) {
@@ -445,8 +445,14 @@ pub fn exec_tamper(t: &[&str], line: &str, rec: &mut Recorder) {
         if bad.is_none() && !cut && *m == "strip-answer" {
             bad = Some("accepted although the answer RRset was removed".into());
         }
-        if bad.is_none() && *m == "add-nsec3" {
-            bad = Some("accepted although the response carries both NSEC and NSEC3 records".into());
+        // add-nsec3: the added NSEC3 is UNSIGNED.  Until /repo cc13292 the validator used it all the same
+        // (selected because the signed SOA has the same owner) and then refused the response for
+        // carrying both kinds of proof; since cc13292 an unauthenticated NSEC3 takes no part in a proof,
+        // and the response is judged by its genuine NSEC proof.  Only the truth rule above applies: an
+        // earlier version of this oracle demanded a rejection here, which is more than the property
+        // states (it was derived from the code's behaviour, not from RFC 4035).
+        if *m == "add-nsec3" {
+            rec.stat("tamper.add-nsec3.accepted-on-the-genuine-nsec-proof");
         }
     }
     // (referrals are left out: delivered as an error they lose the sections that make them one)
